@@ -523,7 +523,7 @@ def relate(a, b, rel, phrase=None, using=None, un=False, ticked=True):
             e.kw('using')
             _inst(e, using, n, 'using_variable_name')
     f = dict(from_variable_name=a, to_variable_name=b, rel_id=rel,
-             phrase=None if phrase is None else "'%s'" % phrase)
+             phrase='' if phrase is None else "'%s'" % phrase)
     cls = ('Unrelate' if un else 'Relate') + ('UsingNode' if using is not None else 'Node')
     if using is not None:
         f['using_variable_name'] = using
@@ -562,7 +562,7 @@ def nav_step(key_letter, rel, phrase=None, ticked=True):
             _phrase(e, phrase, ticked)
         e.p(']')
     return N('NavigationStepNode', dict(key_letter=key_letter, rel_id=rel,
-                                        phrase=None if phrase is None else "'%s'" % phrase),
+                                        phrase='' if phrase is None else "'%s'" % phrase),
              [], emit=emit, checked=False)
 
 
@@ -790,6 +790,8 @@ def compare(exp, got, path='root', positions=False, text=None, problems=None, li
     for k, g in vars(got).items():
         if k in seen or k in ('position', 'character_stream'):
             continue
+        if g is None and any(kid is None for kid in exp.kids):
+            continue         # an absent child (e.g. no else clause, bare return)
         if g is None or isinstance(g, (str, int, float, bool)):
             problems.append(('structure', path, '%s has an unexpected field %s=%r' % (name, k, g)))
     kids = list(got.children)
